@@ -5,7 +5,7 @@ from compiler_checks import *
 PID = "C06"
 THEOREMS = ["PauLie.C06.compileTargetFront_spec", "PauLie.C06.compileTargetFront_admissible",
             "PauLie.C06.C06_obstruction_odd", "PauLie.C06.C06_obstruction_odd_valid", "PauLie.C06.C06_witnesses_unreachable"] + SEARCH_THEOREMS_C06
-IMPORTS = ["PauLieVerif.Properties.C06", "PauLieVerif.Properties.C06Search"]
+IMPORTS = ["PauLieVerif.Properties.C06", "PauLieVerif.Properties.C06Search", "PauLieVerif.Properties.C06Total", "PauLieVerif.Properties.C06Even"]
 
 # the refutation witnesses quoted in Properties/C06.lean, replayed on every run (corpus/C06.jsonl holds them too)
 WITNESSES = ["witness 4 3 IXXX", "witness 4 3 IXXI", "witness 5 2 IIXXX"]
@@ -96,8 +96,15 @@ def main(tier):
                      "helpers one by one); C06_refuted / _left_only / _even_k are kernel-evaluated runs of the model; left_map_over_a is proved sound (a returned path is a "
                      "walk from start to goal over the given generators) and complete (it raises 'Left map BFS failed.' only if the goal is unreachable) for all inputs; for "
                      "every odd k and every N the model returns nothing for V x I..I with an even number of non-identity letters in V (C06_fails_odd_wI, via the invariant Q "
-                     "of C07); NOT proved: that the model's fuel never runs out (separate error value, never observed), hence not 'it raises exactly RuntimeError' for all N; "
-                     "the even-k raises (start = fallback X_1 of a vanishing commutator) are reproduced by the model, not explained by a theorem",
+                     "of C07); the model's fuel NEVER runs out, for every input (compileTarget_total: the BFS of left_map_over_a visits each of the 2^bits strings at most "
+                     "once, the loop of subsystem_compiler decreases 2i+[no helper for i], the interleaving generators drop one element per call; _bfs_case3 is bounded "
+                     "by its depth cap), so 'terminates' is true of the model and every error is a Python exception of the code; left_map_over_a returns iff a walk "
+                     "exists and raises RuntimeError iff none exists (left_search_decides); hence for every N and odd k: V x I..I with even weight raises exactly "
+                     "RuntimeError@compile (C06_fails_odd_wI_raises), V x X_j / V x Z_j with V != I of even weight raises exactly RuntimeError@left_map_over_a "
+                     "(C06_fails_odd_single_raises). POSITIVE for every even k and every N: the walk graph of left_a_minimal(k) is connected on the 4^k-1 non-identity "
+                     "left strings (left_graph_even_connected), so compile_target RETURNS a Valid sequence on every target V x I..I (C06_holds_even_wI) and V x X_j / V x Z_j "
+                     "(C06_holds_even_single) with V != I. NOT proved: the raises for right blocks with >= 2 factors and in the V=I branch (start = fallback X_1 of a "
+                     "vanishing commutator; at even k too) are reproduced by the model, not explained by a theorem",
                      "the property is FALSE on the current tree; failing targets are recorded findings (complete list for N<=5)"])
 
 def replay(path):
